@@ -266,7 +266,8 @@ def ordinal_worlds():
         w.add('mode 0 -')
         w.add(cfg_line(1, 'snaps', fn, ext))
         stem = fn or 'TestOrd'
-        for texec in (1, 2):
+        # (four executions: a reset registered "only for the first call" by a memo that is never cleared shows in the third)
+        for texec in (1, 2, 3, 4):
             w.add('begin %d %s' % (texec, hx(b'TestOrd')))
             kj = ks = 0
             for i in range(6):
@@ -299,8 +300,8 @@ def ordinal_worlds():
                         return None if not names else 'a rejected call wrote %r' % names
                     if texec == 1 and names != [want]:
                         return 'this call is the one that lives in %r, it wrote %r' % (want, names)
-                    if texec == 2 and (names or [k_ for k_, _ in line.events]):
-                        return 'the second execution replays %r: expected a silent pass, got events %r writes %r' % (want, [k_ for k_, _ in line.events], names)
+                    if texec >= 2 and (names or [k_ for k_, _ in line.events]):
+                        return 'a later execution replays %r: expected a silent pass, got events %r writes %r' % (want, [k_ for k_, _ in line.events], names)
                     return None
                 w.add(op, ('kth-standalone-call-lives-in-file-k', exp))
             w.add('end %d' % texec)
